@@ -48,7 +48,9 @@ CHECKS = {
              "independent 25-line recogniser over own grammar tables, the raised exception must be the version's malformed / "
              "mandatory class, and nothing outside the CVSSError hierarchy may escape (the hierarchy itself is asserted). "
              "Quick: 120 valid seeds x their complete single-edit neighbourhood over a 77-symbol hostile alphabet "
-             "(~4M executions) + ~90 field-level operators + junk + 100k-character strings; thorough: 900 seeds + double edits.",
+             "(~4M executions) + ~90 field-level operators + junk + 100k-character strings + 4 coverage-guided atheris/libFuzzer "
+             "sessions (cvss imported under instrumentation, grammar dictionary, same oracle); thorough: 3,600 seeds, double "
+             "edits, 16 x 1.5M fuzzing executions.",
         note="Strings are unbounded: complete only for the 1-edit ball around the sampled seeds and the listed field "
              "operators. str inputs only. Trusts spec/tables.py (cross-checked against the official schema patterns/enums).",
         ref="3 C04"),
@@ -130,7 +132,7 @@ CHECKS = {
                   "uniqueness",
         text="Texts are assembled from valid v2/v3/v4 vectors (incl. the 26-character minimum), one-edit near-misses, "
              "content-invalid vectors, repeats and re-spelled repeats, glue characters, fragments, non-ASCII, plus "
-             "megabyte/degenerate texts. An independent scanner implementing the property's sentence literally lists the "
+             "megabyte/degenerate texts, plus coverage-guided atheris/libFuzzer sessions with the same oracle. An independent scanner implementing the property's sentence literally lists the "
              "delimited valid vectors that must be represented; each result must come from a substring that the independent "
              "recogniser accepts for the result's class; results pairwise unequal.",
         note="Supplied string of a result observed via as_json()['vectorString']; list order never compared.",
